@@ -121,6 +121,12 @@ func (w *c09world) issue(k c09call) {
 		default:
 			l.LogAttrs(bg, sev, "small verb", "q", 7)
 		}
+	case "value-panics":
+		// a call that does not complete: a value inside a nested group panics while it is formatted; the caller recovers
+		func() {
+			defer func() { _ = recover() }()
+			l.LogAttrs(bg, sev, "a value panics\nsecond line", "a", 1, slog.Group("peer", "x", 1, slog.Group("in", "v", panicV{}, "w", 2)), "z", 3)
+		}()
 	case "verb-scoped-flags":
 		// the verb path while the path-privacy and caller flags are toggled inside a SaveFlagsAndMod scope
 		var restore func()
@@ -149,7 +155,10 @@ func c09calls(thorough bool) (hist, probes []c09call) {
 	// history alphabet: a representative subset issued on the probed logger, a sibling and the default logger
 	for _, f := range []string{"color", "json", "logfmt"} {
 		for _, s := range []slog.Level{slog.ErrorLevel, c09Colored, slog.TraceLevel} {
-			for _, sh := range []string{"rich", "rich-eol", "egroup", "verb", "verb-small", "plain", "reent", "verb-scoped-flags"} {
+			for _, sh := range []string{"rich", "rich-eol", "egroup", "verb", "verb-small", "plain", "reent", "verb-scoped-flags", "value-panics"} {
+				if sh == "value-panics" && (s != slog.ErrorLevel || !thorough && f == "json") {
+					continue
+				}
 				if sh == "reent" && (s != slog.ErrorLevel || !thorough && f == "json") {
 					continue
 				}
@@ -262,7 +271,7 @@ func c09run(c *Ctx) {
 			return
 		}
 		for _, h := range hist {
-			if len(p) == 2 && h.Shape != "rich" && h.Shape != "reent" && h.Shape != "verb-scoped-flags" && h.Shape != "verb" && h.Shape != "verb-small" && h.Shape != "egroup" && h.Shape != "rich-eol" {
+			if len(p) == 2 && h.Shape != "rich" && h.Shape != "reent" && h.Shape != "value-panics" && h.Shape != "verb-scoped-flags" && h.Shape != "verb" && h.Shape != "verb-small" && h.Shape != "egroup" && h.Shape != "rich-eol" {
 				continue // third history element: the shapes that touch the most state
 			}
 			if !c.Thorough() && len(p) == 1 && (h.Shape == "plain" || (h.Shape == "rich" || h.Shape == "rich-eol" || h.Shape == "egroup") && h.Target != "probed" || slog.Level(h.Sev) == slog.TraceLevel) {
